@@ -126,7 +126,9 @@ class MQPart:
             "zero-delay yields, each driver created before or after the scheduler, optional Monitor with a scripted "
             "sampling distribution and both service_included settings; kind mq2 (12%): TWO scheduler instances (same or mixed "
             "types) in one Environment with interleaved workloads over shared flow / class ids, each replayed against its own "
-            "copy of the model, plus the independence monitor instances-interfere")
+            "copy of the model, plus the independence monitor instances-interfere; in 10% of the cases the scheduler has no "
+            "next hop (out = None): departures are then observed only through counters, current_packet and Monitor samples; "
+            "Monitor scripts end with 1-3 samples in the idle period after the last busy period")
     nontrivial_rule = {
         "C12": _gen + "; non-trivial = at least 3 packets and some packet had to wait for an earlier transmission; distinct by hash",
         "C13": _gen + " (SP only); non-trivial = at some service decision classes of at least two priority levels were backlogged; distinct by hash",
@@ -210,13 +212,21 @@ class MQPart:
                             burst_p=rng.choice([0.35, 0.6, 0.8]))
         pre = [rng.random() < 0.3 for _ in w["drivers"]]
         mon = None
+        # no next hop: `scheduler.out = None` (send_packet guards with `if self.out:`); the packets then leave the simulation
+        # at the end of their transmission and are observed only through counters, current_packet and Monitor samples
+        noout = rng.random() < 0.1
+        if noout and kind in ("sp", "rr", "wrr") and rng.random() < 0.6:
+            kind = "schedmon"
         if kind == "schedmon":
             lat = [Fraction(1, 4), Fraction(1, 2), Fraction(1), Fraction(1), Fraction(3, 2), Fraction(2), Fraction(3)]
             if rng.random() < 0.2:
                 lat = lat + [Fraction(0)]
-            mon = {"dist": [cf.qjson(rng.choice(lat)) for _ in range(rng.randint(3, 12))], "included": rng.random() < 0.5}
+            dist = [rng.choice(lat) for _ in range(rng.randint(3, 12))]
+            # samples in the idle period after the last busy period
+            dist += [rng.choice([Fraction(4), Fraction(8), Fraction(16), Fraction(32)]) for _ in range(rng.randint(1, 3))]
+            mon = {"dist": [cf.qjson(d) for d in dist], "included": rng.random() < 0.5}
         return {"kind": kind, "sched": sched, "rate": rate, "classes": classes, "cmap": cmap, "workload": w, "pre": pre,
-                "monitor": mon}
+                "monitor": mon, "noout": noout}
 
     # ---- implementation -------------------------------------------------------------------------
     def run_impl(self, case):
@@ -267,7 +277,7 @@ class MQPart:
         with contextlib.redirect_stdout(sink):
             for i, c in enumerate(subs):
                 s = self._make(env, c)
-                s.out = h.tap("out@" + tags[i])
+                s.out = None if c.get("noout") else h.tap("out@" + tags[i])
                 s.proc._generator.__name__ = "run@" + tags[i]
                 orig = s.send_packet
 
@@ -412,7 +422,7 @@ class MQPart:
             else:
                 from onl.scheduler.wrr import WRR
                 s = WRR(env, rate, {f: wt for f, wt in classes})
-            s.out = h.tap("out")
+            s.out = None if case.get("noout") else h.tap("out")
             h.attach(s)
             mon = None
             dist = None
@@ -530,7 +540,8 @@ class MQPart:
         if acts is None:
             return f"false (* {err} *)"
         cfg = self._cfg_term(case)
-        return f"SchedBase.mq_agree {cfg} (SchedBase.mq0 {cfg}) {cf.lst(acts, sep=';\n    ')}"
+        tap = cf.b(not case.get("noout"))
+        return f"SchedBase.mq_agree' {tap} {cfg} (SchedBase.mq0 {cfg}) {cf.lst(acts, sep=';\n    ')}"
 
     def model_term(self, case):
         return None
@@ -605,13 +616,24 @@ class MQPart:
                         W["msgs"].append(f"mq-start-other: transmission starts with current_packet={cur}, dequeued packet was {committed}")
                     insvc = (cur, now)
                     committed = None
-                for o in e[2]:
-                    uid = o[2]
+                ends = list(e[2])
+                if case.get("noout"):
+                    # no next hop: the end of a transmission is the send_packet timeout itself; the packet in service leaves
+                    if e[2]:
+                        W["msgs"].append(f"mq-forward-without-out: scheduler.out is None but {e[2]} was delivered")
+                    ends = []
+                    if (tn, tgt) == ("Timeout", "send_packet"):
+                        if insvc is None:
+                            W["msgs"].append(f"mq-forward-not-in-service: a transmission ends at {now} but none was started")
+                        else:
+                            ends = [None]
+                for o in ends:
+                    uid = o[2] if o is not None else insvc[0]
                     ev["fwd"].append(uid)
                     forwarded.append(uid)
                     sp = specs.get(str(uid))
-                    if sp is None or not o[4] or o[3][:2] != [sp["id"], sp["flow"]] or o[3][3] != sp["size"] \
-                            or Fraction(o[3][4]) != Fraction(sp["time"]) or o[3][2] != sp.get("src", "s"):
+                    if o is not None and (sp is None or not o[4] or o[3][:2] != [sp["id"], sp["flow"]] or o[3][3] != sp["size"]
+                                          or Fraction(o[3][4]) != Fraction(sp["time"]) or o[3][2] != sp.get("src", "s")):
                         W["msgs"].append(f"mq-packet-altered: packet {uid} forwarded as {o[3]} same-object={o[4]}")
                     if insvc is None or insvc[0] != uid:
                         W["msgs"].append(f"mq-forward-not-in-service: packet {uid} forwarded at {now} while in service: {insvc}")
@@ -692,7 +714,11 @@ class MQPart:
                     msgs.append(f"mq-counters: packets_received = {rec} after {ev['arrived']} puts")
                 ins = ev["insvc_after"][0] if ev["insvc_after"] else None
                 if cur != ins:
-                    msgs.append(f"mq-current-packet: current_packet = {cur}, in transmission {ins}")
+                    if ins is None:
+                        msgs.append(f"mq-current-packet-stale: after action {ev['idx']} at {ev['now']} current_packet / packet_in_service "
+                                    f"is still packet {cur} although no transmission is in progress")
+                    else:
+                        msgs.append(f"mq-current-packet: current_packet = {cur}, in transmission {ins}")
                 if m:
                     incl = bool(case["monitor"]["included"])
                     for f, c, b in m:
@@ -849,6 +875,8 @@ class MQPart:
             keys.append(f"{k}:late-driver")
         if case.get("monitor"):
             keys.append(f"{k}:service_included={case['monitor']['included']}")
+        if case.get("noout"):
+            keys.append(f"{k}:no-next-hop")
         if case.get("cmap"):
             nk = len({c for _, c in case["cmap"]})
             keys.append(f"{k}:flow2class={len(case['cmap'])}flows->{nk}classes")
